@@ -323,6 +323,14 @@ def _(repo):
     msrc = ast.unparse(mp)
     mok = ("lambda a: a.get_batch() if a is not None else {}" in msrc and "lambda a: a[0]" in msrc and "lambda a: a[1]" in msrc
            and "eqx.tree_at(lambda m: m.data_gen_obs, self, new_attribute)" in msrc)
+    # construction: one loader per network, its three tables matched BY KEY (tree_map over dictionaries with equal key sets)
+    pi = find_func(mod, "__post_init__", "DataGeneratorObservationsMultiPINNs")
+    built = one(assigns(pi, "self.data_gen_obs"), "self.data_gen_obs")
+    bsrc = ast.unparse(built)
+    mok = (mok and isinstance(built, ast.Call) and ast.unparse(built.func) == "jax.tree_util.tree_map"
+           and [ast.unparse(a) for a in built.args[1:]] == ["keys", "self.observed_pinn_in_dict", "self.observed_values_dict", "self.observed_eq_params_dict"]
+           and "DataGeneratorObservations(k, self.obs_batch_size, pinn_in, val, eq_params) if pinn_in is not None else None" in bsrc
+           and ast.unparse(built.args[0].args).replace(" ", "") == "k,pinn_in,val,eq_params")
     return (f"(* index variable {idxname}; tables {srcs}; keys {keys} *)\n"
             f"Definition gen_obs_gather_same_indices : bool := {'true' if ok else 'false'}.\n"
             f"Definition gen_multi_obs_wiring : bool := {'true' if mok else 'false'}.")
@@ -866,6 +874,10 @@ def _(repo):
     return "\n".join(out)
 
 
+LODE_ = "jinns/loss/_LossODE.py"
+LPDE_ = "jinns/loss/_LossPDE.py"
+
+
 @anchor("G_derivkeys", "term_masks")
 def _(repo):
     """which derivative_keys field each loss term is evaluated with"""
@@ -887,6 +899,38 @@ def _(repo):
             if "_set_derivatives(params, self.derivative_keys.initial_condition)" not in src:
                 ok = False
     return f"Definition gen_terms_use_their_own_mask : bool := {'true' if ok else 'false'}."
+
+
+@anchor("G_derivkeys", "system_term_masks")
+def _(repo):
+    """system losses: the constraint loss of unknown i is built from entry i of every per-unknown
+    dictionary (derivative keys included); the dynamic terms use the system's own dyn_loss keys"""
+    ok = True
+    for rel, cls in ((LODE_, "SystemLossODE"), (LPDE_, "SystemLossPDE")):
+        f = find_func(parse(repo, rel), "__post_init__", cls)
+        loops = [n for n in ast.walk(f) if isinstance(n, ast.For) and any(isinstance(t, ast.Assign) and ast.unparse(t.targets[0]).startswith("self.u_constraints_dict[") for t in ast.walk(n))]
+        loop = one(loops, "loop building u_constraints_dict")
+        var = ast.unparse(loop.target)
+        if ast.unparse(loop.iter) != "self.u_dict.keys()":
+            ok = False
+        n_built = 0
+        for t in ast.walk(loop):
+            if isinstance(t, ast.Assign) and ast.unparse(t.targets[0]).startswith("self.u_constraints_dict["):
+                if ast.unparse(t.targets[0]) != f"self.u_constraints_dict[{var}]" or not isinstance(t.value, ast.Call):
+                    ok = False; continue
+                n_built += 1
+                kws = {k.arg: ast.unparse(k.value) for k in t.value.keywords}
+                if kws.get("derivative_keys") != f"self.derivative_keys_dict[{var}]" or kws.get("u") != f"self.u_dict[{var}]":
+                    ok = False
+                for k, v in kws.items():
+                    if v.startswith("self.") and "_dict[" in v and not v.endswith(f"_dict[{var}]"):
+                        ok = False
+        if n_built == 0:
+            ok = False
+        e = ast.unparse(find_func(parse(repo, rel), "evaluate", cls))
+        if "_set_derivatives(params_dict, self.derivative_keys_dyn_loss.dyn_loss)" not in e:
+            ok = False
+    return f"Definition gen_system_terms_use_their_own_mask : bool := {'true' if ok else 'false'}."
 
 
 # =============================================================== G_params (C12)
@@ -938,7 +982,8 @@ def _(repo):
     mod = parse(repo, DLA)
     f = find_func(mod, "_eval_heterogeneous_parameters")
     src = ast.unparse(f)
-    ok = ("if eq_params_heterogeneity is None:\n        return params.eq_params" in src
+    fresh = [ast.unparse(v) for v in assigns(f, "eq_params_")] == ["{}"]        # results go into a new dictionary, never into the caller's
+    ok = (fresh and "if eq_params_heterogeneity is None:\n        return params.eq_params" in src
           and "for k, p in params.eq_params.items():" in src
           and "if eq_params_heterogeneity[k] is None:\n                eq_params_[k] = p" in src
           and "eq_params_[k] = eq_params_heterogeneity[k](t, u, params)" in src
@@ -1067,6 +1112,18 @@ def _root(e):
     return e.id if isinstance(e, ast.Name) else None
 
 
+def _alias_sources(v):
+    """expressions whose value may be the very object of an argument-rooted location: the location
+    itself, `a or b`, `a if c else b` (no calls: a call returns a new object as far as this table goes)"""
+    if isinstance(v, (ast.Name, ast.Attribute, ast.Subscript)):
+        return [v]
+    if isinstance(v, ast.BoolOp):
+        return [x for o in v.values for x in _alias_sources(o)]
+    if isinstance(v, ast.IfExp):
+        return _alias_sources(v.body) + _alias_sources(v.orelse)
+    return []
+
+
 def _effects(fn):
     """writes rooted at an argument (or at an alias of an argument-rooted location)"""
     params = {a.arg for a in fn.args.args + fn.args.kwonlyargs} | ({fn.args.vararg.arg} if fn.args.vararg else set())
@@ -1088,8 +1145,7 @@ def _effects(fn):
         changed = False
         for n in body_nodes:
             if isinstance(n, ast.Assign) and len(n.targets) == 1 and isinstance(n.targets[0], ast.Name):
-                v = n.value
-                if isinstance(v, (ast.Name, ast.Attribute, ast.Subscript)) and _root(v) in tainted and n.targets[0].id not in tainted:
+                if any(_root(v) in tainted for v in _alias_sources(n.value)) and n.targets[0].id not in tainted:
                     tainted.add(n.targets[0].id); changed = True
             if isinstance(n, ast.Assign) and isinstance(n.targets[0], (ast.Tuple, ast.List)) and isinstance(n.value, (ast.Name, ast.Attribute, ast.Subscript)) and _root(n.value) in tainted:
                 for t in n.targets[0].elts:
@@ -1107,6 +1163,9 @@ def _effects(fn):
         for t in tgts:
             if isinstance(t, (ast.Attribute, ast.Subscript)) and _root(t) in tainted:
                 out.append((n.lineno, "store " + ast.unparse(t)))
+            # `d |= other` updates a dictionary / set in place when d names (an alias of) an argument-rooted container
+            if isinstance(n, ast.AugAssign) and isinstance(n.op, ast.BitOr) and isinstance(t, ast.Name) and t.id in tainted:
+                out.append((n.lineno, "update " + ast.unparse(t) + " |="))
         if isinstance(n, ast.Call) and isinstance(n.func, ast.Attribute) and n.func.attr in MUTATORS and _root(n.func.value) in tainted:
             out.append((n.lineno, "call " + ast.unparse(n.func)))
         if isinstance(n, (ast.Global, ast.Nonlocal)):
